@@ -110,6 +110,24 @@ pub fn starts_rooting_expr(e: &Expr) -> bool {
     e.iter().find(|t| !t.is_flag()).map_or(false, starts_rooting_tok)
 }
 
+/// can some unfolding begin / end with a tree wildcard?
+pub fn starts_with_tree(e: &Expr) -> bool {
+    match e.iter().find(|t| !t.is_flag()) {
+        Some(Tok::Tree { .. }) => true,
+        Some(Tok::Alt(bs)) => bs.iter().any(starts_with_tree),
+        Some(Tok::Rep { body, .. }) => starts_with_tree(body),
+        _ => false,
+    }
+}
+pub fn ends_with_tree(e: &Expr) -> bool {
+    match e.iter().rev().find(|t| !t.is_flag()) {
+        Some(Tok::Tree { .. }) => true,
+        Some(Tok::Alt(bs)) => bs.iter().any(ends_with_tree),
+        Some(Tok::Rep { body, .. }) => ends_with_tree(body),
+        _ => false,
+    }
+}
+
 #[derive(Clone, Debug)]
 pub struct GenCfg {
     pub max_depth: usize,
